@@ -1,5 +1,103 @@
-// stub: check for C13 not built yet
+use c13::event::*;
+use c13::node::*;
+use c13::sinks;
+use emit::Emitter;
+
+fn p(key: &str, node: Node, cap: Cap) -> Prop {
+    Prop { key: key.into(), val: PV::Node { node, cap } }
+}
+
+fn probe() {
+    let mut evs: Vec<Ev> = Vec::new();
+    let base = |props: Vec<Prop>| Ev {
+        mdl: vec!["a".into(), "b".into()],
+        tpl: vec![TplPart::Text("hello ".into()), TplPart::Hole("x".into())],
+        extent: Ext::Point(Ts(1_700_000_000, 123)),
+        props,
+    };
+    let shapes: Vec<(&str, Node)> = vec![
+        ("null", Node::Null), ("unit", Node::Unit), ("none", Node::None), ("some", Node::Some(Box::new(Node::I32(5)))),
+        ("t", Node::Bool(true)), ("i0", Node::I64(0)), ("u64max", Node::U64(u64::MAX)), ("i128min", Node::i128(i128::MIN)),
+        ("u128small", Node::u128(7)), ("f0", Node::f64(0.0)), ("fneg0", Node::f64(-0.0)), ("nan", Node::f64(f64::NAN)), ("inf", Node::f64(f64::INFINITY)),
+        ("f32", Node::f32(0.1)), ("str", Node::str("a\n\"\u{1b}é😀\0")), ("empty", Node::str("")), ("chr", Node::Char('x')), ("bytes", Node::Bytes(vec![0, 255, 7])),
+        ("bytes0", Node::Bytes(vec![])),
+        ("seq", Node::Seq(vec![Node::I32(1), Node::Null, Node::str("s"), Node::Seq(vec![])])),
+        ("tuple", Node::Tuple(vec![Node::I32(1), Node::Bool(false)])),
+        ("map", Node::Map(vec![(Node::str("k"), Node::I32(1)), (Node::str("n"), Node::Map(vec![]))])),
+        ("strct", Node::Struct { name: 0, first: 0, fields: vec![Node::I32(1), Node::Seq(vec![Node::I32(2), Node::I32(3)])] }),
+        ("vunit", Node::Variant { name: 2, variant: 1, body: VBody::Unit }),
+        ("vnew", Node::Variant { name: 2, variant: 1, body: VBody::Newtype(Box::new(Node::I32(9))) }),
+        ("vtup", Node::Variant { name: 2, variant: 1, body: VBody::Tuple(vec![Node::I32(9), Node::I32(8)]) }),
+        ("vstr", Node::Variant { name: 2, variant: 1, body: VBody::Struct { first: 0, fields: vec![Node::I32(9)] } }),
+        ("oddkeys", Node::Map(vec![(Node::Null, Node::I32(1)), (Node::u128(u128::MAX), Node::I32(2)), (Node::Char('c'), Node::I32(3)), (Node::Variant { name: 2, variant: 1, body: VBody::Unit }, Node::I32(4)), (Node::Some(Box::new(Node::str("sk"))), Node::I32(5))])),
+    ];
+    for cap in [Cap::Sval, Cap::Serde] {
+        let mut props = vec![p("x", Node::I32(1), Cap::Prim)];
+        for (k, n) in &shapes {
+            props.push(p(k, n.clone(), cap.clone()));
+        }
+        evs.push(base(props));
+    }
+    // well-known + dups + display/debug/error
+    evs.push(base(vec![
+        p("x", Node::str("X"), Cap::Prim), p("x", Node::I32(2), Cap::Prim),
+        Prop { key: "lvl".into(), val: PV::Level(2) }, Prop { key: "lvl".into(), val: PV::Level(0) },
+        Prop { key: "trace_id".into(), val: PV::TraceId("255".into()) }, Prop { key: "span_id".into(), val: PV::SpanId(77) },
+        Prop { key: "err".into(), val: PV::Error(vec!["top".into(), "mid".into(), "root".into()]) },
+        p("disp", Node::Seq(vec![Node::I32(1)]), Cap::Display), p("dbg", Node::str("q"), Cap::Debug),
+        Prop { key: "ulvl".into(), val: PV::Level(3) },
+    ]));
+    // span
+    evs.push(Ev { mdl: vec!["sp".into()], tpl: vec![TplPart::Text("span msg".into())], extent: Ext::Range(Ts(1_700_000_000, 0), Ts(1_700_000_001, 5)),
+        props: vec![Prop { key: "evt_kind".into(), val: PV::Kind(0) }, p("span_name", Node::str("the span"), Cap::Prim),
+            p("trace_id", Node::str("0123456789ABCDEF0123456789abcdef"), Cap::Prim), p("span_id", Node::str("0123456789abcdef"), Cap::Prim),
+            Prop { key: "span_parent".into(), val: PV::SpanId(5) }, Prop { key: "lvl".into(), val: PV::Level(3) },
+            Prop { key: "err".into(), val: PV::Error(vec!["boom".into(), "cause".into()]) }, p("user", Node::I32(1), Cap::Prim), p("user", Node::I32(2), Cap::Prim)] });
+    // metrics
+    for (agg, val) in [("count", Node::I32(42)), ("sum", Node::Seq(vec![Node::f64(1.5), Node::I32(2)])), ("last", Node::Seq(vec![Node::I32(1), Node::f64(f64::NAN), Node::I32(3)])), ("min", Node::f64(f64::INFINITY)), ("sum", Node::f64(f64::NAN))] {
+        evs.push(Ev { mdl: vec!["me".into()], tpl: vec![TplPart::Text("metric msg".into())], extent: Ext::Range(Ts(1_700_000_000, 0), Ts(1_700_000_003, 0)),
+            props: vec![Prop { key: "evt_kind".into(), val: PV::Kind(1) }, p("metric_name", Node::str("m1"), Cap::Prim), p("metric_agg", Node::str(agg), Cap::Prim),
+                p("metric_value", val, Cap::Sval), p("metric_unit", Node::str("ms"), Cap::Prim), p("metric_unit", Node::str("s"), Cap::Prim),
+                p("user", Node::I32(1), Cap::Prim), p("user", Node::I32(2), Cap::Prim), Prop { key: "lvl".into(), val: PV::Level(2) }] });
+    }
+    for ev in &evs {
+        println!("=== EVENT {}", serde_json::to_string(ev).unwrap());
+        sinks::with_pipeline(|pl| {
+            for (name, em) in [("full_proto", &pl.full_proto), ("full_json", &pl.full_json), ("logs_proto", &pl.logs_proto), ("logs_json", &pl.logs_json)] {
+                match vcore::catch(|| ev.with_event(|e| em.emit(e))) {
+                    Ok(()) => {}
+                    Err(f) => println!("  {name}: PANIC {} {}", f.sig, f.msg),
+                }
+                assert!(em.blocking_flush(sinks::FLUSH));
+            }
+            match vcore::catch(|| ev.with_event(|e| pl.file.emit(e))) {
+                Ok(()) => {}
+                Err(f) => println!("  file: PANIC {} {}", f.sig, f.msg),
+            }
+            assert!(pl.file.blocking_flush(sinks::FLUSH));
+            println!("  FILE: {}", String::from_utf8_lossy(&pl.new_file_bytes().unwrap()));
+            for r in pl.take_requests() {
+                if r.content_type.contains("json") {
+                    println!("  REQ {} [{}]: {}", r.path, r.content_type, String::from_utf8_lossy(&r.body));
+                } else {
+                    let d = if r.path.ends_with("logs") { c13::otlp::decode_logs_proto(&r.body) } else if r.path.ends_with("traces") { c13::otlp::decode_traces_proto(&r.body) } else { c13::otlp::decode_metrics_proto(&r.body) };
+                    println!("  REQ {} [{}]: {:?}", r.path, r.content_type, d);
+                }
+            }
+        });
+        let t = sinks::run_term_child(ev).unwrap();
+        println!("  TERM ok={} plain={:?} coloured={:?} stderr={:?}", t.status_ok, String::from_utf8_lossy(&t.plain), String::from_utf8_lossy(&t.coloured), t.stderr);
+    }
+    sinks::shutdown();
+}
+
 fn main() {
-    eprintln!("C13: check not built yet");
-    std::process::exit(2);
+    let args: Vec<String> = std::env::args().collect();
+    if args.get(1).map(|s| s.as_str()) == Some(sinks::TERM_CHILD_ARG) {
+        sinks::term_child_main();
+    }
+    if args.get(1).map(|s| s.as_str()) == Some("probe") {
+        probe();
+        return;
+    }
 }
